@@ -16,6 +16,9 @@
 #include <signal.h>
 #include <setjmp.h>
 #include <dlfcn.h>
+#include <sys/mman.h>
+#include <sys/wait.h>
+#include <unistd.h>
 
 #define BOSU ((size_t)-1)
 #define ESNOSPC 406
@@ -30,7 +33,7 @@ static void on_sig(int s) { (void)s; if (!armed) _exit(3); armed = 0; siglongjmp
 
 #define MAXSIG 4096
 static char sigs[MAXSIG][160], sigcase[MAXSIG][400]; static long sigcnt[MAXSIG]; static int nsig; static long n_calls, n_viol, n_vec;
-static int verbose;
+static int verbose; static int g_slack = 1;
 static void report(const char *fn, const char *what, const char *cls, const char *cs) {
     char sig[160]; snprintf(sig, sizeof sig, "C17|%s|%s|%s", fn, what, cls); n_viol++;
     if (verbose) printf("  -> %s\n", sig);
@@ -64,8 +67,8 @@ static void norm_vector(const char *group, const wchar_t *src, int ns, const wch
         /* the library decomposes into dest first and wants room for a whole decomposition (4 + terminator) at every character:
          * dmax >= NFD length + 5 must work; between NFD length + 1 and + 4 it may work or report ESNOSPC; below it must fail */
         size_t ample = (size_t)nd + 5;
-        size_t dms[4] = { ample, ample + 16, (size_t)nd + 1 < 5 ? 5 : (size_t)nd + 1, nd >= 5 ? (size_t)nd : 0 };
-        for (int di = 0; di < 4; di++) { size_t dmax = dms[di]; if (!dmax) continue;
+        size_t dms[5] = { ample, ample + 16, (size_t)nd + 1 < 5 ? 5 : (size_t)nd + 1, nd >= 5 ? (size_t)nd : 0, 2 * (size_t)nd + 8 <= 1024 ? 2 * (size_t)nd + 8 : 0 };
+        for (int di = 0; di < 5; di++) { size_t dmax = dms[di]; if (!dmax) continue; if (di == 4 && nd < 20) continue;      /* a dest more than twice the result: only for the longer inputs */
             int rc = norm_call(src, mode, dmax, out, &len, &crashed, &can);
             if (verbose) { printf("mode=%s dmax=%zu rc=%d len=%zu crashed=%d canary_ok=%d handler=%d\n", mode ? "NFC" : "NFD", dmax, rc, len, crashed, can, h_n); if (!crashed) show("out", out, rc == 0 ? (int)wcsnlen(out, dmax) : 1); show("expected", exp, ne); }
             if (crashed) { report(fn, "fault", cls, cs); break; }
@@ -81,6 +84,8 @@ static void norm_vector(const char *group, const wchar_t *src, int ns, const wch
             if (ol >= dmax) { report(fn, "unterminated", cls, cs); break; }
             if ((int)ol != ne || memcmp(out, exp, ne * sizeof(wchar_t))) { report(fn, "differs-from-UAX15", cls, cs); break; }
             if (len != ol) { report(fn, "wrong-length-reported", cls, cs); break; }
+            { int stale = 0; for (size_t k = ol; k < dmax; k++) if (out[k] != 0) stale = 1;        /* the slack behind the terminator is nulled (this build nulls it everywhere) */
+              if (stale && g_slack) { report(fn, "stale-data-behind-the-terminator", cls, cs); break; } }
             /* normalizing the result again gives the same result */
             if (di == 0) { memcpy(out2, out, (ol + 1) * sizeof(wchar_t)); wchar_t o3[4100]; size_t l3; int c3, k3;
                 int r2 = norm_call(out2, mode, ample, o3, &l3, &c3, &k3);
@@ -108,11 +113,25 @@ int main(int argc, char **argv) {
         static wchar_t src[1100], nfd[4100], nfc[4100]; char line[40000], g[40]; static char a[12000], b[14000], c[14000];
         if (replay) { if (argc < 6) return 2; int ns = parse_cps(argv[3], src, 1000), nd = parse_cps(argv[4], nfd, 4000), nc = parse_cps(argv[5], nfc, 4000); snprintf(line, sizeof line, "norm %s %s %s %s", argv[2], argv[3], argv[4], argv[5]); norm_vector(argv[2], src, ns, nfd, nd, nfc, nc, line); }
         else { if (argc < 5) return 2; FILE *f = fopen(argv[2], "r"); if (!f) return 2; long shard = atol(argv[3]), nsh = atol(argv[4]), ln = 0;
-            while (fgets(line, sizeof line, f)) { if ((ln++ % nsh) != shard) continue; if (sscanf(line, "%39s %11999s %13999s %13999s", g, a, b, c) != 4) continue;
+            /* the loop runs in a forked child; the line number of the vector in progress is written ahead into shared memory, so a call
+             * that corrupts the harness's own stack (and kills it later) is attributed and the run resumes behind it */
+            struct Slot { volatile long cur; volatile long done; } *slot = mmap(NULL, 4096, PROT_READ | PROT_WRITE, MAP_SHARED | MAP_ANONYMOUS, -1, 0);
+            slot->cur = -1; long resume = 0; int deaths = 0;
+            for (;;) { fflush(stdout); pid_t pid = fork();
+                if (pid != 0) { int st = 0; waitpid(pid, &st, 0);
+                    if (WIFEXITED(st) && WEXITSTATUS(st) == 0 && slot->done) return 0;
+                    if (++deaths > 50) { fprintf(stderr, "harness child died too often\n"); return 2; }
+                    printf("{\"t\":\"viol\",\"sig\":\"C17|wcsnorm_s|harness-killed-by-the-call(stack-or-heap-corruption)|vector\",\"n\":1,\"case\":\"normfile X %ld\"}\n", (long)slot->cur);
+                    resume = slot->cur + 1; rewind(f); ln = 0; continue; }
+                break; }
+            while (fgets(line, sizeof line, f)) { if (ln < resume) { ln++; continue; } if ((ln++ % nsh) != shard) continue; slot->cur = ln - 1; if (sscanf(line, "%39s %11999s %13999s %13999s", g, a, b, c) != 4) continue;
                 int ns = parse_cps(a, src, 1000), nd = parse_cps(b, nfd, 4000), nc = parse_cps(c, nfc, 4000); char cs[400]; snprintf(cs, sizeof cs, "norm %s %.100s %.120s %.120s", g, a, b, c);
                 if (strlen(a) > 100 || strlen(b) > 120) snprintf(cs, sizeof cs, "normfile %s %ld", g, ln - 1);
                 norm_vector(g, src, ns, nfd, nd, nfc, nc, cs); }
-            fclose(f); }
+            fclose(f);
+            for (int i = 0; i < nsig; i++) printf("{\"t\":\"viol\",\"sig\":\"%s\",\"n\":%ld,\"case\":\"%s\"}\n", sigs[i], sigcnt[i], sigcase[i]);
+            printf("{\"t\":\"stat\",\"cmd\":\"%s\",\"vectors\":%ld,\"calls\":%ld,\"violating\":%ld}\n", cmd, n_vec, n_calls, n_viol);
+            slot->done = 1; fflush(stdout); _exit(0); }
     } else if (!strcmp(cmd, "fold")) {
         /* fold file lines: <cp> <expected NFD(casefold)>, only for code points where that differs from the code point itself;
          * every other code point folds to itself (or is unassigned in the reference's Unicode version: not judged) */
